@@ -1098,4 +1098,23 @@ theorem repairIndexD_dry (readHeader : Nat → Option Nat → Nat → Option (Li
   unfold repairIndexD
   simp [foldl_repairFileD_dry_out]
 
+theorem foldl_repairFileD_reads (d1 d2 readAll : Bool) (files : List IndexFile) (s1 s2 : RepairAcc)
+    (hr : s1.remaining = s2.remaining) (ht : s1.toRead = s2.toRead) :
+    (files.foldl (repairFileD d1 readAll) s1).remaining = (files.foldl (repairFileD d2 readAll) s2).remaining ∧
+    (files.foldl (repairFileD d1 readAll) s1).toRead = (files.foldl (repairFileD d2 readAll) s2).toRead := by
+  induction files generalizing s1 s2 with
+  | nil => exact ⟨hr, ht⟩
+  | cons f fs ih =>
+    rw [List.foldl_cons, List.foldl_cons]
+    apply ih
+    · simp only [repairFileD, hr, ht]
+    · simp only [repairFileD, hr, ht]
+
+theorem repairReadsD_dry_irrelevant (d1 d2 : Bool) (store : List (Nat × Nat)) (files : List IndexFile) (readAll : Bool) :
+    repairReadsD d1 store files readAll = repairReadsD d2 store files readAll := by
+  unfold repairReadsD
+  have h := foldl_repairFileD_reads d1 d2 readAll files { remaining := store, toRead := [], out := [] }
+    { remaining := store, toRead := [], out := [] } rfl rfl
+  simp only [h.1, h.2]
+
 end Rustic.Index
